@@ -19,8 +19,13 @@ sys.path.insert(0, os.path.join(REPO, "tests"))
 def build_source(spec):
     out = ["import threading, time", "import lemoncheesecake.api as lcc", ""]
     for f in spec["fixtures"]:
-        out.append("@lcc.fixture(scope=%r, per_thread=True)" % f["scope"])
-        out.append("def %s():" % f["name"])
+        delegating = f["generator"] and f.get("form") == "delegating"
+        if delegating:
+            # the fixture function is not a generator function itself: it RETURNS the generator of a helper
+            out.append("def _gen_%s():" % f["name"])
+        else:
+            out.append("@lcc.fixture(scope=%r, per_thread=True)" % f["scope"])
+            out.append("def %s():" % f["name"])
         out.append("    v = Val()")
         out.append("    KEEP.append(v)")
         out.append("    EV.append(['setup', %r, TH(), id(v)])" % f["name"])
@@ -34,6 +39,11 @@ def build_source(spec):
         else:
             out.append("    return v")
         out.append("")
+        if delegating:
+            out.append("@lcc.fixture(scope=%r, per_thread=True)" % f["scope"])
+            out.append("def %s():" % f["name"])
+            out.append("    return _gen_%s()" % f["name"])
+            out.append("")
     for s in spec["suites"]:
         out.append("@lcc.suite(%r)" % s["name"])
         out.append("class %s:" % s["name"])
